@@ -189,6 +189,15 @@ pub fn judge(case: &Case, acc: &mut Acc) {
             stdin = good_input(*size, &mut rng, single);
             stdin_used = true;
             argv.push("-".into());
+        } else if *size <= 200 && rng.chance(1, 4) {
+            // a zero-length (or blank) regular file: no document for JSON / YAML readers, one empty table for TOML
+            // (which is also what detection makes of it)
+            let n2 = format!("e{i}{}", *rng.pick(&["", ".toml", ".json", ".TOML"]));
+            let b: Vec<u8> = (*rng.pick(&[&b""[..], b"", b"\n", b"# nothing\n"])).to_vec();
+            acc.count("zero_length_or_blank_input");
+            sc.file(&n2, &b);
+            files.insert(n2.clone(), PathKind::Regular(b));
+            argv.push(n2);
         } else if *size <= 3000 && i % 2 == 1 {
             // generated content in any source format, ending in an empty string / empty collection / ...,
             // delivered as a regular file, on standard input (format detected) or through a FIFO
@@ -274,9 +283,9 @@ pub fn run(ctx: &Ctx) -> i32 {
         acc.sample_every(149, || case.json());
         judge(&case, acc);
     });
-    let rule = format!("{} invocations: 1-6 inputs with sizes from 5 B to 4 MiB (mostly below the 8 KiB stdout buffer, some straddling it, some far above), the failing input at every position in turn (or none), failure kinds {:?}, all four targets, stdout a pipe or a file, some inputs through standard input; every second small input is a generated document in a random source format and spelling (named by its extension) whose last value is an empty string, an empty collection or another value that serializers finish with an unusual final write, delivered as a regular file, on standard input (format detected) or through a FIFO (named with or without its extension); expectation computed with the library; distinct non-trivial = distinct invocations", n, FAILURES);
+    let rule = format!("{} invocations: 1-6 inputs with sizes from 5 B to 4 MiB (mostly below the 8 KiB stdout buffer, some straddling it, some far above), the failing input at every position in turn (or none), failure kinds {:?}, all four targets, stdout a pipe or a file, some inputs through standard input, some zero-length or blank files; every second small input is a generated document in a random source format and spelling (named by its extension) whose last value is an empty string, an empty collection or another value that serializers finish with an unusual final write, delivered as a regular file, on standard input (format detected) or through a FIFO (named with or without its extension); expectation computed with the library; distinct non-trivial = distinct invocations", n, FAILURES);
     ev::finish(
-        Finish { ctx, level: "fault_enumeration", rule, assumptions: vec!["how much of the FAILING input's own partial output reaches stdout is left open (anything between nothing and all of it)".into()], extra: serde_json::Map::new(), exhaustive: false, min_distinct: 300, must_reach: vec![("failures_with_earlier_output_below_buffer_size".into(), 100), ("expected_exit_0".into(), 50), ("failing_position_0".into(), 20), ("failing_position_3".into(), 20), ("generated_input_msgpack".into(), 30), ("generated_input_yaml".into(), 30), ("generated_input_json".into(), 30), ("generated_input_on_stdin".into(), 20), ("generated_input_through_fifo".into(), 30)] },
+        Finish { ctx, level: "fault_enumeration", rule, assumptions: vec!["how much of the FAILING input's own partial output reaches stdout is left open (anything between nothing and all of it)".into()], extra: serde_json::Map::new(), exhaustive: false, min_distinct: 300, must_reach: vec![("failures_with_earlier_output_below_buffer_size".into(), 100), ("expected_exit_0".into(), 50), ("failing_position_0".into(), 20), ("failing_position_3".into(), 20), ("generated_input_msgpack".into(), 30), ("generated_input_yaml".into(), 30), ("generated_input_json".into(), 30), ("generated_input_on_stdin".into(), 20), ("zero_length_or_blank_input".into(), 50), ("generated_input_through_fifo".into(), 30)] },
         acc,
     )
 }
